@@ -44,6 +44,29 @@ add("C04", "fault_enumeration", E3 + " (cuts of raw and gzip images judged again
     "cuts at frame boundaries end without an error.",
     "One injected fault per execution; gzip completeness relies on zlib.decompressobj as independent reference.", "DESIGN.md C04")
 
+add("C07", "exploration", E1 + " (program grammar by size class x record alphabet; reference = CPython eval over a plain namespace, mc.refsel)",
+    "Every program of the typed selector grammar up to size class 3 (4 thorough: ~43k / more programs) is evaluated on 9 records by the "
+    "interpreted and the compiled engine and by CPython's own eval over a plain namespace with independent helpers and typed matcher; "
+    "where all sub-expressions are defined the truth values must agree and neither engine may raise; programs outside the operator "
+    "tables must be rejected or evaluated correctly; a list of unknown-name / disallowed-call programs must be rejected.",
+    "mc.refsel pins the meaning of typed matchers and helpers (DESIGN C07); identity tests on literals and `Type.T not in X` are excluded as ambiguous.", "DESIGN.md C07")
+add("C08", "exploration", E1 + " (the finite missing-field grammar is enumerated completely; heterogeneous streams through 7 read paths)",
+    "All 8 operators x position of the missing operand x 22 kinds of other operand x 8 boolean contexts x 4 ways of building the "
+    "selector: the comparison is False and nothing raises; helpers skip missing fields; every mixed-type record sequence up to length 4 "
+    "filtered through stream reader, path reader, record_stream (1 and 2 files) and rdump (compiled and -n) yields exactly the records "
+    "that have the field and satisfy the condition.",
+    "`x in <non-container>` is excluded (TypeError for every x in Python); known compiled-engine findings listed in known_findings.json.", "DESIGN.md C08")
+add("C09", "exploration", E1 + " (hostile call-target spellings x contexts on canary records, independent AST classifier as oracle)",
+    "186 spellings of disallowed calls / dunder reads x 18 contexts (x18 again in thorough) on records holding instrumented canary "
+    "objects: every program the classifier labels refused raises, with empty canary and builtin logs and no tripwire file; no program "
+    "modifies the record.",
+    "Canaries log explicit method calls only; operators, str()/repr() and iteration are allowed operations.", "DESIGN.md C09")
+add("C10", "model_checking", E2 + " over matcher histories (state = selector object after a sequence of match calls) plus E1 adapter matrix",
+    "For 100+ selectors and every match history up to length 3 (4 thorough) over 6 records, both engines: the last result equals a "
+    "fresh selector's and the record is unchanged; for 8 reader configurations x all record sequences <=3 x 26 selectors x 3 ways of "
+    "giving the selector, reading with the selector equals reading without and filtering afterwards, including where an exception occurs.",
+    "Canonical matcher state = names bound in the matcher namespace; adapters restricted to fields they can carry.", "DESIGN.md C10")
+
 NOT_BUILT = "check not built yet in this round (design in DESIGN.md section 3); not claimed until it runs"
 
 
